@@ -23,12 +23,12 @@ from sim.net import Link
 
 PROPERTY = "C13"
 LEVEL = "exploration"
-BUDGET = {"quick": {"runs": 2800, "wall": 55}, "thorough": {"runs": 60000, "wall": 570}}
+BUDGET = {"quick": {"runs": 5600, "wall": 58}, "thorough": {"runs": 60000, "wall": 570}}
 T_CALL = 5.0
 T_INACTIVE = 2.0
 STEP_CAP = 200000
 CLIENT_APIS = ("recv", "recv_stderr", "sendall", "sendall_stderr", "send", "exec_command", "invoke_shell", "invoke_subsystem",
-               "get_pty", "recv_exit_status", "open_session", "global_request", "request_port_forward", "renegotiate_keys",
+               "get_pty", "recv_exit_status", "open_session", "open_session_burst", "global_request", "request_port_forward", "renegotiate_keys",
                "auth_password", "auth_publickey", "auth_interactive", "auth_none",
                "srt_auth_password", "srt_auth_publickey", "srt_auth_none", "start_client")
 SERVER_APIS = ("accept_none", "accept_timeout", "server_recv", "server_sendall", "start_server", "server_renegotiate")
@@ -58,6 +58,13 @@ def sim_kw(seed):
     kw = {"max_steps": 1_500_000, "max_time": 7200.0}
     if seed % 3 == 0:
         kw["trace_files"] = TRACE
+    api = CASES[seed % len(CASES)][0]
+    if "open_session" in api and (seed // len(CASES)) % 2 == 0:
+        # statement-level pre-emption inside the functions that register a new channel: the loss of the connection
+        # can then be handled by the transport thread between any two of their statements
+        import paramiko.transport as tr_mod
+        kw["trace_files"] = {tr_mod.__file__}
+        kw["trace_funcs"] = {"open_channel", "_next_channel", "open_session"}
     return kw
 
 
@@ -152,6 +159,13 @@ def proxy_modules(sim, sock, box):
     return saved
 
 
+def _quiet(fn):
+    try:
+        fn()
+    except Exception:
+        pass
+
+
 def on_hang(sim, exc):
     """Step budget exhausted: some task is looping.  Classify by the busiest non-driver task."""
     from sim.core import SimBudget
@@ -179,6 +193,12 @@ def scenario(sim):
     if sim.trace_files:
         sim.p_preempt = (0.005, 0.05)[sim.choose(2)]
         sim.max_preempt = (6, 60)[sim.choose(2)]
+        if sim.trace_funcs:
+            sim.p_preempt = (0.1, 0.4)[sim.choose(2)]      # only a handful of statements are traced
+            sim.p_preempt_stall = (0.0, 0.5)[sim.choose(2)]
+            # injected stalls must stay well inside the liveness bound: at most 6 of at most 0.3 virtual seconds
+            sim.max_preempt = 6
+            sim.stall_choices = (0.001, 0.05, 0.3)
     api, loss, phase = CASES[sim.seed % len(CASES)]
     via_proxy = api.startswith("proxy:")
     if via_proxy:
@@ -261,6 +281,12 @@ def scenario(sim):
             ch.recv_exit_status()
         elif api == "open_session":
             p.tc.open_session()
+        elif api == "open_session_burst":
+            # several callers opening channels at once: each of them has to come back
+            subs = [sim.spawn(lambda: _quiet(p.tc.open_session), "opener%d" % i) for i in range(3)]
+            for t_ in subs:
+                while t_.state != core.DONE:
+                    sim.sleep(0.1)
         elif api == "global_request":
             p.tc.global_request("x@example.com", None, True)
         elif api == "request_port_forward":
